@@ -3983,3 +3983,87 @@ func statefulClosureFactory(p *Prog, info *types.Info, call *ast.CallExpr) (*ast
 	}
 	return lit, bind
 }
+
+// valueReceiverLoses: e is a method value whose method is declared with a VALUE receiver and whose body
+// writes through the receiver (assigns one of its fields, or calls a pointer-receiver method on it):
+// the method value binds a copy of the struct, so everything it records is lost to whoever built the
+// struct. Returns a description, or "".
+func valueReceiverLoses(p *Prog, info *types.Info, e ast.Expr) string {
+	se, ok := ast.Unparen(e).(*ast.SelectorExpr)
+	if !ok {
+		return ""
+	}
+	sel := info.Selections[se]
+	if sel == nil || sel.Kind() != types.MethodVal {
+		return ""
+	}
+	fn, _ := sel.Obj().(*types.Func)
+	if fn == nil {
+		return ""
+	}
+	fd := p.decls().byFunc[fn.Origin()]
+	if fd == nil || fd.Body == nil || fd.Recv == nil || len(fd.Recv.List) != 1 {
+		return ""
+	}
+	if _, isPtr := fd.Recv.List[0].Type.(*ast.StarExpr); isPtr {
+		return ""
+	}
+	ro := recvObj(info, fd)
+	if ro == nil {
+		return ""
+	}
+	finfo := p.decls().infoOf[fd]
+	if finfo == nil {
+		finfo = info
+	}
+	why := ""
+	ast.Inspect(fd.Body, func(n ast.Node) bool {
+		if why != "" {
+			return false
+		}
+		switch x := n.(type) {
+		case *ast.AssignStmt:
+			for _, l := range x.Lhs {
+				if lse, ok := ast.Unparen(l).(*ast.SelectorExpr); ok && objOfIdent(finfo, lse.X) == ro {
+					if fs := finfo.Selections[lse]; fs != nil && fs.Kind() == types.FieldVal {
+						why = p.posStr(l.Pos()) + ": " + fd.Name.Name + " has a value receiver and assigns " + exprKey(l) + ": the method value works on a copy of the struct, the assignment is lost"
+					}
+				}
+			}
+		case *ast.IncDecStmt:
+			if lse, ok := ast.Unparen(x.X).(*ast.SelectorExpr); ok && objOfIdent(finfo, lse.X) == ro {
+				why = p.posStr(x.Pos()) + ": " + fd.Name.Name + " has a value receiver and updates " + exprKey(x.X) + " of a copy"
+			}
+		case *ast.CallExpr:
+			if cse, ok := ast.Unparen(x.Fun).(*ast.SelectorExpr); ok && objOfIdent(finfo, cse.X) == ro {
+				if cs := finfo.Selections[cse]; cs != nil && cs.Kind() == types.MethodVal {
+					if cfn, _ := cs.Obj().(*types.Func); cfn != nil {
+						if sig, _ := cfn.Type().(*types.Signature); sig != nil && sig.Recv() != nil {
+							if _, ptr := sig.Recv().Type().(*types.Pointer); ptr {
+								if cfd := p.decls().byFunc[cfn.Origin()]; cfd != nil && cfd.Body != nil {
+									cro := recvObj(finfo, cfd)
+									writes := false
+									ast.Inspect(cfd.Body, func(m ast.Node) bool {
+										if as, ok := m.(*ast.AssignStmt); ok {
+											for _, l := range as.Lhs {
+												if lse, ok := ast.Unparen(l).(*ast.SelectorExpr); ok && cro != nil && objOfIdent(finfo, lse.X) == cro {
+													writes = true
+												}
+											}
+										}
+										return !writes
+									})
+									if writes {
+										why = p.posStr(x.Pos()) + ": " + fd.Name.Name + " has a value receiver and calls " + cfn.Name() + ", which writes its receiver: the write goes to a copy of the struct"
+									}
+								}
+							}
+						}
+					}
+				}
+			}
+		}
+		return true
+	})
+	return why
+}
